@@ -16,10 +16,22 @@ use crate::evlog;
 static GLOBAL_MAX: AtomicU64 = AtomicU64::new(0);
 static DELTA: AtomicU64 = AtomicU64::new(1);
 static STEP: AtomicU64 = AtomicU64::new(1);
+/// After `LATE_AFTER` reads on a thread every read costs `LATE_DELTA` ticks (0 = never): the step
+/// stays uniform while the cost of reading the clock changes (cold / warm, contended / not).
+static LATE_AFTER: AtomicU64 = AtomicU64::new(0);
+static LATE_DELTA: AtomicU64 = AtomicU64::new(0);
 
 thread_local! {
     static OWN: Cell<u64> = const { Cell::new(0) };
     static READS: Cell<u64> = const { Cell::new(0) };
+    static ALL_READS: Cell<u64> = const { Cell::new(0) };
+}
+
+/// Read cost `delta` for the calling thread's first `after` reads from now on, `late_delta` afterwards.
+pub fn configure_late(after: u64, late_delta: u64) {
+    LATE_AFTER.store(after, SeqCst);
+    LATE_DELTA.store(late_delta, SeqCst);
+    let _ = ALL_READS.try_with(|r| r.set(0));
 }
 
 pub fn configure(delta: u64, step: u64) {
@@ -44,8 +56,20 @@ pub fn charge(ticks: u64) {
 }
 
 pub fn read(is_end: bool) -> u64 {
-    let delta = DELTA.load(Relaxed);
+    let mut delta = DELTA.load(Relaxed);
     let step = STEP.load(Relaxed);
+    let late_after = LATE_AFTER.load(Relaxed);
+    if late_after != 0 {
+        let n = ALL_READS
+            .try_with(|r| {
+                r.set(r.get() + 1);
+                r.get()
+            })
+            .unwrap_or(0);
+        if n > late_after {
+            delta = LATE_DELTA.load(Relaxed).max(1);
+        }
+    }
     let own = OWN
         .try_with(|o| {
             let mut own = o.get();
